@@ -175,6 +175,9 @@ def run(ctx):
     # ---- stack built-ins: PEEK[a..b] index arithmetic is pest's, each built-in uses the right stack operation (C06's instances)
     from . import c06
     c06.run(ctx, ids=("R01-STACKIDX", "R01-STACKOPS", None), own=False)
+    # ---- full backtracking: a failed alternative / option / iteration and every look-ahead leave stack and cursor as they were (C05's instances)
+    from . import c05
+    c05.run(ctx, ids=("R01-BT-PAIR", "R01-BT-RECOVER", "R01-BT-PRED", "R01-BT-CURSOR"), own=False)
 
     # ---- R01-OPMAP
     ro = ctx.rule("R01-OPMAP", "for each pest operator form the generated type has the class tree of that operator (children in grammar order), "
